@@ -126,6 +126,17 @@ def gen_svg():
         line_height = rust_int(m.group(1))
     except ValueError:
         raise GenError("render_svg: line_height is not a literal")
+    # the geometry of the document is integer arithmetic on usize (a 2^24-row document is out of a
+    # differential test's reach; the width alone is a float product, which the model mirrors)
+    for pin, what in ((r"let height = styled_lines\.len\(\) \* line_height \+ self\.padding_px \* 2;", "height"),
+                      (r"let width_px = \(max_width as f64 \* 8\.4\)\.ceil\(\) as usize;\s*"
+                       r"let width_px = std::cmp::max\(width_px, self\.min_width_px\) \+ self\.padding_px \* 2;", "width_px"),
+                      (r"let text_x = self\.padding_px;\s*let mut text_y = self\.padding_px \+ line_height;", "text_x / text_y"),
+                      (r"text_y \+= line_height;", "text_y step")):
+        if len(re.findall(pin, rs)) != 1:
+            raise GenError("render_svg: %s is not the pinned integer expression" % what)
+    if len(re.findall(r"\bheight\b", rs)) != 6 or len(re.findall(r"\btext_y\b", rs)) != 4 or len(re.findall(r"\bline_height\b", rs)) != 6:
+        raise GenError("render_svg: height / text_y / line_height are used outside the pinned expressions")
     # Term::new()
     nb = _body(src, r"pub const fn new\s*\(\)\s*->\s*Self\s*\{", "Term::new")
     fields = {}
